@@ -11,13 +11,15 @@ If(cond, name) == IF cond THEN {} ELSE {name}
 Range(s) == {s[i] : i \in DOMAIN s}
 
 NEG == -999999
-Filtered(words, tagIn, dict, ncat) ==
+(* the value written for excluded categories: the default large negative value, or the one the caller passed (x8) *)
+NegOf(e) == IF "neg" \in DOMAIN e THEN e.neg ELSE NEG
+Filtered(words, tagIn, dict, ncat, neg) ==
   [s \in DOMAIN words |-> [i \in DOMAIN words[s] |-> [c \in 1..ncat |->
-      IF words[s][i] \in DOMAIN dict /\ c \notin Range(dict[words[s][i]]) THEN NEG ELSE tagIn[s][i][c]]]]
+      IF words[s][i] \in DOMAIN dict /\ c \notin Range(dict[words[s][i]]) THEN neg ELSE tagIn[s][i][c]]]]
 
 FailsFilter(e) ==
      If(~e.raised, "C17.filter_raised")
-  \cup If(e.raised \/ e.tag_out = Filtered(e.words, e.tag_in, e.dict, e.ncat), "C17.listed_kept_others_negative_rest_untouched")
+  \cup If(e.raised \/ e.tag_out = Filtered(e.words, e.tag_in, e.dict, e.ncat, NegOf(e)), "C17.listed_kept_others_negative_rest_untouched")
   \cup If(e.raised \/ e.dep_out = e.dep_in, "C17.dependency_scores_changed")
   \cup If(e.raised \/ e.words_out = e.words, "C17.tokens_or_order_changed")
 
